@@ -159,7 +159,9 @@ def run_neutral(spec, rec, dadi):
             for tf in (1e-3, 1e-4):
                 Integration.timescale_factor = tf
                 shared = {}
-                res = memo_extrap(dadi, model, args, (n,), [G, G + 10, G + 20], rec, site, tags, cache=shared)
+                # (the grid list is a set of grids: every third case names them in another order)
+                glist = [[G, G + 10, G + 20], [G + 20, G, G + 10], [G + 10, G + 20, G]][ci % 3]
+                res = memo_extrap(dadi, model, args, (n,), glist, rec, site, tags, cache=shared)
                 for log, fs in res.items():
                     if fs is None:
                         continue
